@@ -42,6 +42,10 @@ import (
 //	K="rm"                      : TabList.RemoveAll(id)
 //	K="rmall"                   : TabList.RemoveAll()
 //	K="bup"   V=join|add|lat|gm|list|unlist|dn|dnnil|order|gm+lat|join2 : backend player-info update
+//	          V=joinP (join with a signed and an unsigned profile property) | joinS (join with a chat session)
+//	          V=lat2|lat2r|dn2|dn2r|unlist2|unlist2r : ONE packet with an entry for each id (r: id1 first) -
+//	            the ids may be known or unknown independently
+//	K="brm2"                    : backend remove packet listing both ids
 //	K="brm"                     : backend player-info remove
 //	K="add2"  V=AB|BA           : TabList.Add(e0, e1) — two ids in ONE call
 //	K="adddup"                  : TabList.Add(variant A of id, variant B of id) — the same id twice in one call
@@ -59,7 +63,7 @@ func (o Op) String() string {
 	if o.V != "" {
 		s += ":" + o.V
 	}
-	if o.K != "rmall" && o.K != "add2" && o.K != "rm2" {
+	if o.K != "rmall" && o.K != "add2" && o.K != "rm2" && o.K != "brm2" && !(o.K == "bup" && strings.HasSuffix(strings.TrimSuffix(o.V, "r"), "2")) {
 		s += fmt.Sprintf("(%d)", o.I)
 	}
 	return s
@@ -84,6 +88,8 @@ func variant(v string, i int, owner tablist.InternalTabList) *tablist.Entry {
 		a.GameMode, a.DisplayName = 0, text("C")
 	case "D":
 		a.Profile.Properties = []profile.Property{{Name: "textures", Value: "dmFsdWU=", Signature: "c2ln"}}
+	case "E": // an unsigned property (the signature is optional on the wire) next to a signed one
+		a.Profile.Properties = []profile.Property{{Name: "textures", Value: "dW5zaWduZWQ="}, {Name: "extra", Value: "eA==", Signature: "c2ln"}}
 	}
 	return &tablist.Entry{OwningTabList: owner, EntryAttributes: a}
 }
@@ -257,13 +263,13 @@ func (sc scenario) nActions() int {
 func (sc scenario) ops() []Op {
 	var ops []Op
 	sets := []string{"lat", "gm", "unlist", "list", "dn", "dnnil"}
-	bups := []string{"join", "add", "lat", "gm", "list", "unlist", "dn", "dnnil", "gm+lat"}
+	bups := []string{"join", "add", "lat", "gm", "list", "unlist", "dn", "dnnil", "gm+lat", "joinP", "joinS"}
 	if sc.nActions() >= 7 {
 		sets = append(sets, "order")
 		bups = append(bups, "order")
 	}
 	for i := 0; i < 2; i++ {
-		for _, v := range []string{"A", "B", "C", "D"} {
+		for _, v := range []string{"A", "B", "C", "D", "E"} {
 			ops = append(ops, Op{K: "add", I: i, V: v})
 		}
 		ops = append(ops, Op{K: "readd", I: i})
@@ -277,7 +283,10 @@ func (sc scenario) ops() []Op {
 		ops = append(ops, Op{K: "brm", I: i})
 	}
 	ops = append(ops, Op{K: "rmall"}, Op{K: "bup", V: "join2"})
-	ops = append(ops, Op{K: "add2", V: "AB"}, Op{K: "add2", V: "BA"}, Op{K: "rm2"})
+	ops = append(ops, Op{K: "add2", V: "AB"}, Op{K: "add2", V: "BA"}, Op{K: "rm2"}, Op{K: "brm2"})
+	for _, v := range []string{"lat2", "lat2r", "dn2", "dn2r", "unlist2", "unlist2r"} {
+		ops = append(ops, Op{K: "bup", V: v})
+	}
 	for i := 0; i < 2; i++ {
 		ops = append(ops, Op{K: "adddup", I: i}, Op{K: "sset", I: i, V: "lat"}, Op{K: "sset", I: i, V: "dn"})
 	}
@@ -286,10 +295,34 @@ func (sc scenario) ops() []Op {
 
 // backendUpdate builds the vanilla bytes of a backend player-info update.
 func backendUpdate(sc scenario, op Op) []byte {
+	reversed := strings.HasSuffix(op.V, "2r")
 	e := refEntry{id: ids[op.I], name: fmt.Sprintf("p%d", op.I), latency: 30, gameMode: 3, listed: true, order: 4, showHat: true}
 	dn := "N"
 	var actions []int
+	two := false
+	if base := strings.TrimSuffix(op.V, "r"); strings.HasSuffix(base, "2") && base != "join2" {
+		// a partial update for both ids in one packet
+		two = true
+		op.V = strings.TrimSuffix(base, "2")
+		e.latency = 45
+		dn = "N2"
+	}
 	switch op.V {
+	case "joinP", "joinS":
+		actions = []int{actAdd, actChat, actGameMode, actListed, actLatency, actDisplayName}
+		if sc.nActions() >= 7 {
+			actions = append(actions, actListOrder)
+		}
+		if sc.nActions() >= 8 {
+			actions = append(actions, actHat)
+		}
+		e.latency, e.gameMode, e.order = 25, 1, 0
+		if op.V == "joinP" {
+			sig := "c2lnbmF0dXJl"
+			e.props = []refProp{{name: "textures", value: "dGV4", sig: &sig}, {name: "unsigned", value: "dQ=="}}
+		} else {
+			e.chat = refChatSession()
+		}
 	case "join", "join2":
 		actions = []int{actAdd, actChat, actGameMode, actListed, actLatency, actDisplayName}
 		if sc.nActions() >= 7 {
@@ -323,6 +356,15 @@ func backendUpdate(sc scenario, op Op) []byte {
 		e.gameMode, e.latency = 2, 90
 	}
 	entries := []refEntry{e}
+	if two {
+		e2 := e
+		e.id, e.name = ids[0], "p0"
+		e2.id, e2.name = ids[1], "p1"
+		entries = []refEntry{e, e2}
+		if reversed {
+			entries = []refEntry{e2, e}
+		}
+	}
 	if op.V == "join2" {
 		e2 := e
 		e.id, e.name = ids[0], "p0"
@@ -409,16 +451,19 @@ func runHistory(sc scenario, h []Op) bfs.Outcome {
 				if rd.Len() != 0 {
 					return fmt.Errorf("proxy left %d bytes of a vanilla player-info update undecoded", rd.Len())
 				}
-				if err := tl.ProcessUpdate(&pk); err != nil {
-					return err
-				}
+				// handleUpsertPlayerInfo: an error of ProcessUpdate is logged ("ignored"), the packet is forwarded anyway
+				_ = tl.ProcessUpdate(&pk)
 				if err := cl.handleUpdate(raw); err != nil {
 					return fmt.Errorf("HARNESS: reference client rejects reference encoding: %w", err)
 				}
 				return nil
 			}
-		case "brm":
-			raw := refEncodeRemove([]uuid.UUID{ids[op.I]})
+		case "brm", "brm2":
+			list := []uuid.UUID{ids[op.I]}
+			if op.K == "brm2" {
+				list = []uuid.UUID{ids[0], ids[1]}
+			}
+			raw := refEncodeRemove(list)
 			call = func() error {
 				var pk playerinfo.Remove
 				if err := pk.Decode(&proto.PacketContext{Direction: proto.ClientBound, Protocol: sc.proto}, bytes.NewReader(raw)); err != nil {
@@ -497,12 +542,12 @@ func enabled(h []Op, op Op) bool {
 			present = [2]bool{true, true}
 		case "rm", "brm":
 			gone(o.I)
-		case "rmall", "rm2":
+		case "rmall", "rm2", "brm2":
 			gone(0)
 			gone(1)
 		case "bup":
 			switch o.V {
-			case "join", "add":
+			case "join", "add", "joinP", "joinS":
 				present[o.I] = true
 			case "join2":
 				present = [2]bool{true, true}
@@ -560,6 +605,9 @@ func TestVerif(t *testing.T) {
 					r.Class("last-op:" + last.K)
 					if last.K == "bup" {
 						r.Class("backend-update:" + last.V)
+					}
+					if last.K == "bup" && strings.HasSuffix(strings.TrimSuffix(last.V, "r"), "2") && last.V != "join2" && len(h) > 1 {
+						r.Class("two-entry-partial-update-after-history")
 					}
 					if out.Obs == "last-op-left-buffered-packets" {
 						r.Class("note:op-left-buffered-unflushed-packets")
